@@ -576,6 +576,25 @@ BUILTIN_IMPL = {
 
 
 # ---------------------------------------------------------------- methods of builtin values
+def _known_ascii(t):
+    """syntactic: the term is built from ASCII literals and decimal numerals (int.__str__ / '%d') only"""
+    if z3.is_string_value(t):
+        try:
+            return all(ord(ch) < 128 for ch in t.as_string())
+        except Exception:
+            return False
+    if not z3.is_app(t):
+        return False
+    k = t.decl().kind()
+    if k == z3.Z3_OP_INT_TO_STR:
+        return True
+    if k == z3.Z3_OP_SEQ_CONCAT:
+        return all(_known_ascii(c) for c in t.children())
+    if k == z3.Z3_OP_ITE:
+        return _known_ascii(t.arg(1)) and _known_ascii(t.arg(2))
+    return False
+
+
 def call_method(it, recv, meth, args, kwargs, fr, node):
     recv = it.force(recv)
     if isinstance(recv, VJson):
@@ -718,6 +737,8 @@ def m_str(it, s, meth, args, kwargs):
             it.ctx.assume(uf(f"decodable_{enc}", StringS, BoolS)(out))
             it.ctx.assume(uf(f"decode_{enc}", StringS, StringS)(out) == s.z)
         if enc == "ascii":
+            if _known_ascii(s.z):
+                return VStr(s.z, "bytes")       # decimal numerals / ASCII literals: nothing to decide
             ok = z3.InRe(s.z, z3.Star(z3.Range(chr(0), chr(127))))
             if it.ctx.branch(z3.Not(ok)):
                 it.raise_("UnicodeEncodeError")
